@@ -99,6 +99,11 @@ class Gen:
         else:
             # a stack slot written and read back (sometimes overwritten first)
             one = self.const(32, 1)
+            if rng.random() < 0.5:      # the element count is computed in the current block (not a constant, not an argument)
+                z = self.const(32, 0)
+                cnt = self.fresh("n")
+                self.emit(f"{cnt} = llvm.add {z}, {one} : i32")
+                one = cnt
             p = self.fresh("p")
             self.emit(f"{p} = llvm.alloca {one} x i{w} : (i32) -> !llvm.ptr")
             self.emit(f"llvm.store {self.value(pool, w)}, {p} : i{w}, !llvm.ptr")
